@@ -17,7 +17,6 @@ package main
 import (
 	"fmt"
 	"os"
-	"runtime/pprof"
 	"sort"
 	"strings"
 	"time"
@@ -670,11 +669,6 @@ var outcomeText = [nOutcomes]string{"unspecified", "must: matched, values return
 
 func main() {
 	r := core.Start("C03")
-	if f := os.Getenv("C03_PROF"); f != "" {
-		fh, _ := os.Create(f)
-		_ = pprof.StartCPUProfile(fh)
-		defer pprof.StopCPUProfile()
-	}
 	// quick: all patterns of <=4 tokens over the full literal alphabet plus the 5-token patterns over
 	// the empty literal only (delimiters and parameters); thorough: all patterns of <=5 tokens, one more value.
 	maxTok, extraTok := 4, 5
@@ -718,9 +712,27 @@ func main() {
 		return 0
 	}
 
+	// Violations and samples are collected per pattern and merged in pattern order after the
+	// parallel phase, so that the representative case of a signature does not depend on scheduling.
+	perPat := make([]map[string]*core.Violation, len(pats))
+	perPatSamples := make([][]any, len(pats))
+
 	r.Parallel(len(pats), func(pi int, l *core.Local) {
 		p := pats[pi]
 		np := len(p.keys)
+		vio := map[string]*core.Violation{}
+		violate := func(sig, what string, cs func() map[string]any, observed, expected any) {
+			if v, ok := vio[sig]; ok {
+				v.Count++
+				return
+			}
+			vio[sig] = &core.Violation{Signature: sig, What: what, Case: cs(), Observed: observed, Expected: expected, Count: 1}
+		}
+		defer func() {
+			if len(vio) > 0 {
+				perPat[pi] = vio
+			}
+		}()
 		if r.Expired() {
 			r.Cap("wall-clock cap reached: the tail of the pattern list (ordered by token count) was skipped")
 			l.Add("patterns_skipped_by_cap", 1)
@@ -793,14 +805,14 @@ func main() {
 					mkCase := func() map[string]any {
 						return map[string]any{"pattern": p.text, "values": f.vals, "variant": v.name, "path": v.path, "config": c.String()}
 					}
-					if np == 2 && pi%211 == 0 && v.id != vAsIs && c.Unesc && !c.CS {
-						l.Sample(map[string]any{"case": mkCase(), "claim": []string{"unspecified", "must", "must-not"}[v.cl.kind], "handler_ran": hit, "params": append([]string(nil), rn.got...)})
+					if np == 2 && pi%211 == 0 && v.id != vAsIs && c.Unesc && !c.CS && len(perPatSamples[pi]) < 2 && f.vals[0] != "" && f.vals[1] != "" {
+						perPatSamples[pi] = append(perPatSamples[pi], map[string]any{"case": mkCase(), "claim": []string{"unspecified", "must", "must-not"}[v.cl.kind], "handler_ran": hit, "params": append([]string(nil), rn.got...)})
 					}
 					switch v.cl.kind {
 					case cMust:
 						if !hit {
 							aOut[v.id][oMustNoMatch]++
-							l.Violate(sigA(p, *v, c, "no-match", rn.got), "a path filled according to the statement does not reach the lone route", mkCase(), "404", "handler runs")
+							violate(sigA(p, *v, c, "no-match", rn.got), "a path filled according to the statement does not reach the lone route", mkCase, "404", "handler runs")
 							continue
 						}
 						ok := rn.rt == p.text
@@ -815,7 +827,7 @@ func main() {
 						}
 						if !ok {
 							aOut[v.id][oMustWrong]++
-							l.Violate(sigA(p, *v, c, "wrong-values", rn.got), "Params does not return the values the path was filled with", mkCase(),
+							violate(sigA(p, *v, c, "wrong-values", rn.got), "Params does not return the values the path was filled with", mkCase,
 								map[string]any{"params": append([]string(nil), rn.got...), "route": rn.rt}, v.cl.vals)
 							continue
 						}
@@ -823,7 +835,7 @@ func main() {
 					case cMustNot:
 						if hit {
 							aOut[v.id][oMustNotMatched]++
-							l.Violate(sigA(p, *v, c, "matched-although-config-says-different", rn.got), "the configuration makes this spelling a different path, no reading of the pattern describes it, yet the route answered", mkCase(),
+							violate(sigA(p, *v, c, "matched-although-config-says-different", rn.got), "the configuration makes this spelling a different path, no reading of the pattern describes it, yet the route answered", mkCase,
 								map[string]any{"params": append([]string(nil), rn.got...)}, "404")
 							continue
 						}
@@ -844,8 +856,8 @@ func main() {
 				if hit == rpm {
 					continue
 				}
-				l.Violate(sigB(p, path, c, hit, rpm, fc), "RoutePatternMatch disagrees with dispatching the path to an app holding only that route",
-					map[string]any{"pattern": p.text, "path": path, "config": c.String()},
+				violate(sigB(p, path, c, hit, rpm, fc), "RoutePatternMatch disagrees with dispatching the path to an app holding only that route",
+					func() map[string]any { return map[string]any{"pattern": p.text, "path": path, "config": c.String()} },
 					map[string]any{"RoutePatternMatch": rpm, "handler_ran": hit}, "equal")
 			}
 		}
@@ -873,6 +885,20 @@ func main() {
 		}
 	})
 
+	var samples []any
+	for pi := range pats {
+		for sig, v := range perPat[pi] {
+			if o, ok := r.P.Violations[sig]; ok {
+				o.Count += v.Count
+			} else {
+				r.P.Violations[sig] = v
+			}
+		}
+		if len(samples) < 6 {
+			samples = append(samples, perPatSamples[pi]...)
+		}
+	}
+	r.P.Violations = collapseConfigs(r.P.Violations)
 	ev := core.Evidence{
 		Level:      "exploration",
 		Exhaustive: true,
@@ -881,7 +907,8 @@ func main() {
 			"distinct_nontrivial": r.P.Counters["nontrivial"],
 			"rule": fmt.Sprintf("every delimited pattern of <=%d tokens (first token '/'+lit, then any of 12 literal tokens {/,-,.}x%q or a parameter {:p,:p?,*,+} never directly after a parameter)%s = %d patterns; x every assignment of %q to its parameters; (a) assignments meeting the side conditions x spelling variants %q x 8 configs judged must/must-not/unspecified; (b) every filled path (side conditions NOT required, type-invalid values included), every variant path and every one-symbol deletion/insertion (symbols %q) of the type-valid filled paths x 8 configs: RoutePatternMatch vs lone-route app. A case is non-trivial when the pattern has at least one parameter and the oracle gave a verdict (not unspecified)",
 				maxTok, lits, map[bool]string{true: fmt.Sprintf(" plus every %d-token pattern whose literals are bare delimiters", extraTok), false: ""}[extraTok > maxTok], len(pats), values, variantNames, neighbourSyms),
-			"bounds": map[string]any{"max_tokens": maxTok, "extra_tokens_reduced_literals": extraTok, "value_alphabet": values, "literal_alphabet": lits, "neighbour_symbols": neighbourSyms, "patterns": len(pats), "configs": 8},
+			"samples": samples,
+			"bounds":  map[string]any{"max_tokens": maxTok, "extra_tokens_reduced_literals": extraTok, "value_alphabet": values, "literal_alphabet": lits, "neighbour_symbols": neighbourSyms, "patterns": len(pats), "configs": 8},
 		},
 		Assumptions: []string{
 			"handler-level drive: app.Handler() through fx.CallInto with a Host header; fasthttp request-line parsing is not re-checked (paths with a raw space are not sent)",
@@ -891,6 +918,5 @@ func main() {
 		},
 		MinOutcomes: 4,
 	}
-	pprof.StopCPUProfile()
 	r.Finish(ev)
 }
